@@ -91,6 +91,22 @@ def defaultChanged (oa na : ArgD) : Bool :=
   (oa.hasDefault && !na.hasDefault) || (!oa.hasDefault && na.hasDefault)
     || (oa.hasDefault && oa.default.render != na.default.render)
 
+/-- `_compatible(change)`: a retyping the differ considers safe for clients (`Int!` -> `Int` on an input
+    position, `Int` -> `Int!` on an output position) is reported nonetheless, with the severity the helper
+    sets (`compatibleRetypeSeverity`, re-extracted; `none`: the source has no such helper and reports nothing).
+    `str(old.type) != str(new.type)` is `ot != nt` here (`Ty.render` is injective). -/
+def compatRetype (cls : String) (key : List (String × String)) (ot nt : Ty) : List Change :=
+  match PyGql.Generated.Differ.compatibleRetypeSeverity with
+  | some s => if ot != nt then [{ cls := cls, key := key, severity := s }] else []
+  | none => []
+
+/-- the compatible retypings of the arguments / input fields matched by name -/
+def compatRetypes (cls : String) (key : ArgD → ArgD → List (String × String)) (olds news : List ArgD) : List Change :=
+  olds.flatMap fun oa =>
+    match news.find? (·.name == oa.name) with
+    | none => []
+    | some na => if safeIn oa.type na.type then compatRetype cls (key oa na) oa.type na.type else []
+
 def diffDirectiveArguments (od nd : DirectiveD) : List Change :=
   (od.args.filterMap fun oa =>
     match nd.args.find? (·.name == oa.name) with
@@ -102,6 +118,8 @@ def diffDirectiveArguments (od nd : DirectiveD) : List Change :=
       else none)
   ++ ((nd.args.filter fun na => (od.args.find? (·.name == na.name)).isNone).map fun na =>
       mk "DirectiveArgumentAdded" [("argument", na.name), ("directive", nd.name)] (ArgD.required na))
+  ++ compatRetypes "DirectiveArgumentChangedType"
+      (fun oa na => [("directive", od.name), ("new_argument", na.name), ("old_argument", oa.name)]) od.args nd.args
 
 def diffDirectives (o n : SchemaD) : List Change :=
   (o.directives.flatMap fun od =>
@@ -127,10 +145,12 @@ def diffFieldArguments (parent : String) (of nf : FieldD) : List Change :=
       else none)
   ++ ((nf.args.filter fun na => (of.args.find? (·.name == na.name)).isNone).map fun na =>
       mk "FieldArgumentAdded" [("argument", na.name), ("field", nf.name), ("type", parent)] (ArgD.required na))
+  ++ compatRetypes "FieldArgumentChangedType"
+      (fun oa na => [("field", of.name), ("new_argument", na.name), ("old_argument", oa.name), ("type", parent)]) of.args nf.args
 
 def diffField (parent : String) (of nf : FieldD) : List Change :=
   let k := [("new_field", nf.name), ("old_field", of.name), ("type", parent)]
-  (if !safeOut of.type nf.type then [mk "FieldChangedType" k] else [])
+  (if !safeOut of.type nf.type then [mk "FieldChangedType" k] else compatRetype "FieldChangedType" k of.type nf.type)
   ++ diffFieldArguments parent of nf
   ++ (match of.deprecated, nf.deprecated with
       | some _, none => [mk "FieldDeprecationRemoved" k]
@@ -169,6 +189,8 @@ def diffInputTypes (o n : SchemaD) : List Change :=
         else none)
     ++ ((nt.inputFields.filter fun nf => (ot.inputFields.find? (·.name == nf.name)).isNone).map fun nf =>
         mk "InputFieldAdded" [("field", nf.name), ("type", nt.name)] (ArgD.required nf))
+    ++ compatRetypes "InputFieldChangedType"
+        (fun of nf => [("new_field", nf.name), ("old_field", of.name), ("type", ot.name)]) ot.inputFields nt.inputFields
 
 /-- `diff_schema(old, new, min_severity)` -/
 def diffSchema (o n : SchemaD) (minSeverity : Nat := 0) : List Change :=
